@@ -542,6 +542,7 @@ type ContractFile struct {
 	Funcs   []*FuncContract
 	Ghosts  []*GhostFunc
 	Fields  []*GhostField
+	Aliases [][3]string // type, target type, package path
 	Vars    []*GhostVar
 	Axioms  []*Clause
 }
@@ -644,6 +645,15 @@ func parseContractFile(path string, pkgPath string) (*ContractFile, error) {
 					return nil, fmt.Errorf("%s:%d: ghost var <name> <type>", path, l.no)
 				}
 				cf.Vars = append(cf.Vars, &GhostVar{Name: parts[0], Type: strings.TrimSpace(parts[1]), PkgPath: cf.PkgPath})
+				continue
+			}
+			if strings.HasPrefix(rest, "alias ") {
+				// ghost alias A B: objects of type A carry the ghost fields declared for type B (same heaps)
+				f := strings.Fields(rest[6:])
+				if len(f) != 2 {
+					return nil, fmt.Errorf("%s:%d: ghost alias <type> <type>", path, l.no)
+				}
+				cf.Aliases = append(cf.Aliases, [3]string{f[0], f[1], cf.PkgPath})
 				continue
 			}
 			if strings.HasPrefix(rest, "field ") {
